@@ -180,6 +180,7 @@ func (server *Server) ServeCodec(codec ServerCodec) {
 	// Drain the decode queue first: once it is closed no ServeRequest runs any more, so the
 	// wait for the handlers cannot be overtaken by a new wg.Add and nobody else touches the
 	// stream table or the other queues during the teardown below.
+	drain(pipeline)
 	pipeline.Close()
 	wg.Wait()
 	server.mutex.Lock()
@@ -193,6 +194,16 @@ func (server *Server) ServeCodec(codec ServerCodec) {
 		ctx.stream.Close()
 	}
 	readStream.Close()
+}
+
+// drain waits until everything queued on a single-worker queue has run, in queue order.
+// Closing a busy queue instead would run the tasks still waiting on the calling goroutine,
+// possibly before or while the worker runs an earlier one: requests received right before
+// the end of the connection could then overtake one another.
+func drain(sched scheduler.Scheduler) {
+	done := make(chan struct{})
+	sched.Schedule(func() { close(done) })
+	<-done
 }
 
 // deleteCodec closes the specified codec.
@@ -538,6 +549,7 @@ func (server *Server) listen(sock socket.Socket, address string, New NewServerCo
 				if atomic.CompareAndSwapInt32(&svrctx.closed, 0, 1) {
 					// as in ServeCodec: drain the decode queue before waiting for the handlers
 					if svrctx.pipeline != nil {
+						drain(svrctx.pipeline)
 						svrctx.pipeline.Close()
 					}
 					svrctx.wg.Wait()
